@@ -94,7 +94,7 @@ fn at_rest<S: Sc>(kind: Kind, constant_slope: bool, horizon: f64) {
 
 /// estimator order on the linear test equation y' = lambda*y: with tol >= K |lambda y| |lambda h|^p the first trial step
 /// (of size h, dt_min = dt_max = h) is accepted -- the estimate is O(h^p), not larger
-fn estimator_order<S: Sc>(kind: Kind) {
+fn estimator_order<S: Sc>(kind: Kind, fixed: Option<(f64, f64)>) {
     let (p, k): (i32, f64) = match kind {
         Kind::RK45 => (4, 1.0),
         Kind::RK23 => (2, 1.0),
@@ -103,8 +103,11 @@ fn estimator_order<S: Sc>(kind: Kind) {
         Kind::BDF6 => (6, 40.0),
         _ => (2, 4.0),
     };
-    let lambda = S::input("lambda", -2.0, 2.0);
-    let h = S::input("h", 1e-2, 0.25);
+    // (concrete (lambda, h) members make every query linear in (y0, tol): all six solvers fit the quick tier)
+    let (lambda, h) = match fixed {
+        Some((l, hh)) => (S::lit(l), S::lit(hh)),
+        None => (S::input("lambda", -2.0, 2.0), S::input("h", 1e-2, 0.25)),
+    };
     let y0 = S::input("y0", -YB, YB);
     let t0 = S::input("t0", -1.0, 1.0);
     let tol = S::input("tol", 1e-10, 10.0);
@@ -127,7 +130,7 @@ fn estimator_order<S: Sc>(kind: Kind) {
 
 pub fn run(pr: &mut PropRun, t: &Tier) {
     pr.funcs(&["ivp::rk::RungeKuttaSolver::step (controller)", "ivp::adams::AdamsSolver::step", "ivp::bdf::BDFSolver::{step,secant,jac_finite_diff}", "ivp::IVPIterator::next"]);
-    pr.bound("controller contract per step from an arbitrary symbolic state and configuration (arbitrary right-hand side for the Runge-Kutta controllers): retry factor in [0.1,0.9], growth <= 4x, cap at dt_max, stage count per attempt; solutions at rest and straight-line solutions for all six adaptive solvers on complete runs of short horizons; estimator order on y' = lambda*y with lambda, h, y0, tol symbolic (first trial step accepted whenever tol >= K |lambda y| |lambda h|^p)");
+    pr.bound("controller contract per step from an arbitrary symbolic state and configuration (arbitrary right-hand side for the Runge-Kutta controllers): retry factor in [0.1,0.9], growth <= 4x, cap at dt_max, stage count per attempt; solutions at rest and straight-line solutions for all six adaptive solvers on complete runs of short horizons; estimator order on y' = lambda*y (first trial step accepted whenever tol >= K |lambda y| |lambda h|^p): y0, tol, t0 symbolic with 5 seeded concrete (lambda, h) pairs (|lambda h| from 0.25 down to 0.002) for all six solvers; lambda and h symbolic too for RK23 (quick) and all six (thorough)");
     pr.outside("the global evaluation count over long intervals (a pen-and-paper corollary of the per-step contract: with retry factor <= 0.9 and estimator order p the number of attempts is within a fixed factor of length * tol^(-1/p)); non-linear problems");
     let ratio = if t.thorough { 3.0 } else { 2.0 };
     for kind in [Kind::RK45, Kind::RK23] {
@@ -151,6 +154,15 @@ pub fn run(pr: &mut PropRun, t: &Tier) {
         let mut cfg = t.cfg(&format!("C05:estimator-order({})", kind.name()));
         cfg.max_decisions = 300;
         cfg.query_timeout_s = if t.thorough { 120.0 } else { 30.0 };
-        run_h!(pr, cfg, estimator_order, kind);
+        run_h!(pr, cfg, estimator_order, kind, None);
     }
+    let mut jobs: Vec<super::Job> = vec![];
+    for kind in Kind::ADAPTIVE {
+        for (l, h) in [(1.0, 0.25), (-2.0, 0.0625), (-1.25, 0.015625), (0.75, 0.00390625), (2.0, 0.0009765625)] {
+            let mut cfg = t.cfg(&format!("C05:estimator-order({},lambda={},h={})", kind.name(), l, h));
+            cfg.max_decisions = 300;
+            crate::job!(jobs, cfg, estimator_order, kind, Some((l, h)));
+        }
+    }
+    super::run_jobs(pr, jobs, t.threads);
 }
